@@ -120,6 +120,16 @@ func checkProbe(r *rux.Router, c cfg, method, path string) string {
 	}
 	rec := serve(r, method, path)
 	body := rec.Body.String()
+	// the same request arriving for /pre<path> and handed on by http.StripPrefix (RequestURI as a server sets it): the
+	// router resolves the path in the request's URL, with every option
+	if strings.HasPrefix(path, "/") {
+		pre := &http.Request{Method: method, URL: &url.URL{Path: "/pre" + path}, Header: http.Header{}, Proto: "HTTP/1.1", RequestURI: "/pre" + (&url.URL{Path: path}).EscapedPath()}
+		rec2 := httptest.NewRecorder()
+		http.StripPrefix("/pre", r).ServeHTTP(rec2, pre)
+		if rec2.Code != rec.Code || rec2.Body.String() != body || rec2.Result().Header.Get("Allow") != rec.Result().Header.Get("Allow") {
+			return fmt.Sprintf("behind http.StripPrefix(/pre): %d %q Allow=%q, directly %d %q Allow=%q: %s", rec2.Code, rec2.Body.String(), rec2.Result().Header.Get("Allow"), rec.Code, body, rec.Result().Header.Get("Allow"), ctx)
+		}
+	}
 	switch res.Kind {
 	case model.Direct, model.HeadGet, model.Fallback:
 		if want := tb.Routes[res.Route].Name(); rec.Code != 200 || body != want {
